@@ -134,6 +134,7 @@ std::vector<Manifold> build(const std::vector<Op>& leaves, const std::vector<Op>
   Env e;
   e.capM = 1000;
   e.capX = 1000;
+  e.eagerTemps = eager;
   for (auto& op : leaves) exec(e, op);
   if (e.M.empty()) e.pushM(Manifold::Cube());
   for (auto& m : e.M) (void)m.Status();
